@@ -435,7 +435,7 @@ def _run(c, run, resume=None):
     req = c["req"]
     mode = run["exec"]
     lin = resume is not None
-    with tempfile.TemporaryDirectory(prefix="verif_c03_") as tmp:
+    with tempfile.TemporaryDirectory(prefix="verif_c03_", ignore_cleanup_errors=True) as tmp:
         log = mapsym.CallLog(os.path.join(tmp, "calls.log") if mode in ("process", "default") else None)
         p = build_pipeline(req, log, delay_seed=None if mode == "ctl" else run.get("seed", 0))
         if real_gens(p, req) != c["gens"]:
@@ -486,8 +486,8 @@ def _run(c, run, resume=None):
                 r = _call_map(p, req, run, d, None, **mk)
             return [_values(req, r, d), canon_log(c, log.read()[n0:]), [], prelog]
         finally:
-            for e in created:
-                e.shutdown(wait=False)
+            for e in created:     # wait: tasks still writing into the run folder must not race with its removal
+                e.shutdown(wait=True, cancel_futures=True)
 
 
 def _run_guarded(c, run, resume=None):
